@@ -15,11 +15,11 @@ import (
 type c13Gen struct {
 	r     *rng
 	stats map[string]int
-	lines []string
+	sink  func(line string)
 }
 
 func (g *c13Gen) emit(format string, a ...interface{}) {
-	g.lines = append(g.lines, fmt.Sprintf(format, a...))
+	g.sink(fmt.Sprintf(format, a...))
 }
 
 func (g *c13Gen) bytesN(n int) []byte {
@@ -147,9 +147,9 @@ func (g *c13Gen) mapKey(hostile bool) []byte {
 		case 1:
 			return []byte(c13Marker)
 		case 2:
-			return g.bytesN(32768)
-		case 3:
-			return g.bytesN(32769)
+			if g.r.chance(10) {
+				return g.bytesN(32768 + g.r.intn(2))
+			}
 		case 4:
 			return binary.LittleEndian.AppendUint32([]byte{2}, uint32(g.r.intn(3)))
 		}
@@ -199,6 +199,12 @@ func (g *c13Gen) mapBody(depth int, hostile bool) string {
 			continue
 		}
 		seen[string(k)] = true
+		if string(k) == c13Marker {
+			// under the reserved key an int32 is taken for a list size by the reader: keep it small,
+			// the harness reads the bucket back in-process
+			parts = append(parts, hx(k)+" "+g.r.pick([]string{"i 0", "i 1", "i 2", "i 3", "i -1", "i -2147483648", "s 78", "n", "l 2", "m 0", "b 1"}))
+			continue
+		}
 		parts = append(parts, hx(k)+" "+g.value(depth-1, hostile))
 	}
 	return strconv.Itoa(len(parts)) + c13Join(parts)
@@ -250,12 +256,10 @@ func (g *c13Gen) strList() string {
 		switch k := g.r.intn(100); {
 		case k < 50:
 			parts = append(parts, hx(pool[g.r.intn(len(pool))]))
-		case k < 98:
+		case k < 99 || g.r.chance(80):
 			parts = append(parts, hx(g.str()))
-		case k < 99:
-			parts = append(parts, hx(g.bytesN(32767)))
 		default:
-			parts = append(parts, hx(g.bytesN(32768))) // key too large with its type byte
+			parts = append(parts, hx(g.bytesN(32767+g.r.intn(2)))) // 32768: key too large with its type byte
 		}
 	}
 	return strconv.Itoa(len(parts)) + c13Join(parts)
@@ -469,7 +473,7 @@ func (g *c13Gen) randomScenario(hostile bool) {
 		}
 	}
 	sb.WriteString(" " + c13ReadSet(pool))
-	g.lines = append(g.lines, sb.String())
+	g.sink(sb.String())
 	if hostile {
 		g.stats["random_scenario_hostile"]++
 	} else {
@@ -619,14 +623,14 @@ func (g *c13Gen) keyComponent() []byte {
 	switch k := g.r.intn(100); {
 	case k < 25:
 		return [][]byte{{}, []byte("a"), {0}, {1}, {1, 'a'}, {0x80}, {0xff}, []byte("id-1234")}[g.r.intn(8)]
-	case k < 70:
+	case k < 82:
 		return g.bytesN(1 + g.r.intn(40))
-	case k < 88:
+	case k < 91:
 		return g.bytesN([]int{126, 127, 128, 129, 255, 256, 4095, 4096}[g.r.intn(8)])
 	case k < 94:
 		return g.bytesN([]int{4097, 4098, 5000, 16383, 16384, 70000}[g.r.intn(6)])
 	default:
-		return g.bytesN(130 + g.r.intn(4000))
+		return g.bytesN(130 + g.r.intn(1000))
 	}
 }
 
@@ -762,11 +766,11 @@ func (g *c13Gen) fieldToCases(n int) {
 	}
 }
 
-func c13Generate(o *opts, stats map[string]int) []string {
-	g := &c13Gen{r: newRng(o.seed), stats: stats}
+func c13Generate(o *opts, stats map[string]int, sink func(line string)) {
+	g := &c13Gen{r: newRng(o.seed), stats: stats, sink: sink}
 	nScen, nHostile, nKeys, nT := 3200, 700, 600, 800
 	if o.thorough() {
-		nScen, nHostile, nKeys, nT = 120000, 25000, 20000, 20000
+		nScen, nHostile, nKeys, nT = 150000, 30000, 30000, 30000
 	}
 	if o.n > 0 {
 		nScen, nHostile, nKeys, nT = o.n, o.n/4, o.n/4, o.n/4
@@ -781,5 +785,4 @@ func c13Generate(o *opts, stats map[string]int) []string {
 	}
 	g.compoundKeys(nKeys)
 	g.fieldToCases(nT)
-	return g.lines
 }
